@@ -55,7 +55,7 @@ func TestC20(t *testing.T) {
 	r := newRun(t, "C20", "exploration")
 	defer r.Finish(t)
 	r.Rule = "race-detector build (GORACE halt_on_error=0, every 'WARNING: DATA RACE' block in the log is a witness, deduplicated by outermost frames). Families, all on the real clock with real goroutine populations and random real delays of 0..1.5ms: priority v2 / v1 / v2 simple / v1 Simple with H handler goroutines receiving and releasing, one producer per input, and for v1 AddInput / replace / RemoveInput / Stop / cancel / GracefulStop called from other goroutines; join / unite copy mode with consumers that keep and overwrite slices, no-copy mode with holds, v1 join Stop / cancel; limit with slow and fast consumers; plus a small fake-clock block of the priority and join steppers. Part C (thorough tier) repeats the real-clock families with GODEBUG=asynctimerchan=1 (the timer-channel semantics a go1.22 main module gets). The load-robust oracles of C01/C02/C07/C03/C08/C12 run alongside. non-trivial = a scenario with >= 2 goroutines of the harness concurrently using the discipline that ran to completion; distinct by scenario fingerprint"
-	r.Rule += " | also: uninstrumented 'bare' families (nothing shared between harness goroutines, the caller keeps writing to its Inputs map, plain per-item result slots read right after a normal termination, stops right after construction, two concurrent control goroutines, removal with items in flight) and the pure helpers called concurrently with shared arguments"
+	r.Rule += " | also: uninstrumented 'bare' families (nothing shared between harness goroutines, the caller keeps writing to its Inputs map, plain per-item result slots read right after a normal termination and, for v1 Simple, right after Err() closed on Stop / cancel, stops right after construction, two concurrent control goroutines, removal with items in flight) and the pure helpers called concurrently with shared arguments"
 	r.Assumptions = []string{"the Go race detector reports only races on executed paths and within its history window", "scenarios use the API as documented (H handlers, one release per item, control calls one at a time)"}
 	r.Floor = 30
 	if r.Cfg.Replay != "" {
@@ -159,6 +159,9 @@ func bareCase(r *Run, sc PrioRealScenario) {
 		if res.ResultsRead {
 			r.Count("bare.scenarios_whose_handler_results_were_read_right_after_normal_termination", 1)
 			r.Count("bare.handler_result_slots_read", int64(res.Handled))
+			if res.RoughRead {
+				r.Count("bare.v1_simple_scenarios_whose_handler_results_were_read_right_after_Err_closed_on_stop_or_cancel", 1)
+			}
 		}
 		if res.TwoControllers && res.CtlCalls >= 2 {
 			r.Count("bare.v1_scenarios_with_two_concurrent_control_goroutines", 1)
